@@ -22,7 +22,7 @@ Definition p_block (p : prog) (n : nat) : block := nth n (p_blocks p) [].
 Definition fwd_run (p : prog) (w : wto) (entry delay desc : nat) (use_asm : bool)
            (asm : nat -> option env) (fuel : nat) (init : env) : option (est env) :=
   run env itv_ops (fun n e => tr_block (p_block p n) e) (p_preds p) (nest_of w) entry
-      delay desc use_asm asm fuel w init.
+      delay desc use_asm asm init fuel w.
 
 Definition fwd_check (p : prog) (entry : nat) (use_asm : bool) (asm : nat -> option env)
            (init : env) (pre post : nat -> env) : bool :=
